@@ -8,6 +8,7 @@
 -/
 import PolyVerif.Model.GraphIO
 import PolyVerif.Lemmas.GraphIO
+import PolyVerif.Lemmas.DepOrder
 
 namespace PolyVerif
 namespace C12
@@ -82,12 +83,146 @@ theorem sorted_unique {E : Env V J} (hE : EnvOK E) {ty : TyName} {T : NodeType} 
   let ⟨hS, hN⟩ := depsOf_strict hE hT hc
   sorted_unique_aux hS hN hperm hsorted
 
-/-! ### the comparator: what the pinned (pre-5b98158) order does to ten or more array entries -/
+/-! ### the comparator -/
+
+theorem name_code_aux {E : Env V J} (_hE : EnvOK E) {ty : TyName} {T : NodeType} (_hT : E.types ty = some T)
+    {n : Node V} (hlen : ∀ p, (n.arrs p).length ≤ 2 ^ 63) {x : Name} (hx : x ∈ (depsOf T n).map (·.name)) :
+    ∃ c : Code, c.Valid T ∧ c.render = x := by
+  obtain ⟨d, hd, rfl⟩ := List.mem_map.mp hx
+  unfold depsOf at hd
+  rcases List.mem_append.mp hd with h | h
+  · exact ⟨.s d.name, (mem_scalDeps h).1, rfl⟩
+  · obtain ⟨p, hp, i, hi, hname, _⟩ := mem_arrDeps h
+    exact ⟨.a p i, ⟨hp, Nat.lt_of_lt_of_le hi (hlen p)⟩, hname.symm⟩
+
+/-- `dependencyNameLess` as it is now (numeric-suffix aware) satisfies the hypothesis of `decode_encode`, for every
+    node of every type whose input names are dot-free and distinct up to case (Go field names), with any number of
+    connections a Go slice can hold — any number of digits: it is a strict total order on the node's dependency
+    names and orders `P.i` before `P.j` for all i < j. -/
+theorem natural_order_ok {E : Env V J} (hE : EnvOK E) {ty : TyName} {T : NodeType} (hT : E.types ty = some T)
+    (hP : PortsOK T) (n : Node V) (hlen : ∀ p, (n.arrs p).length ≤ 2 ^ 63) : CmpOK depLess T n := by
+  have hdotS := hE.scalNoDot ty T hT
+  have code := fun x hx => name_code_aux (n := n) hE hT hlen (x := x) hx
+  refine ⟨⟨?_, ?_, ?_⟩, ?_⟩
+  · intro a ha b hb h1 h2
+    obtain ⟨ca, va, rfl⟩ := code a ha
+    obtain ⟨cb, vb, rfl⟩ := code b hb
+    have hS := codeLt_strict hP hdotS [ca, cb] (by intro c hc; simp at hc; rcases hc with rfl | rfl <;> assumption)
+    exact hS.asymm ca (by simp) cb (by simp) h1 h2
+  · intro a ha b hb c hc h1 h2
+    obtain ⟨ca, va, rfl⟩ := code a ha
+    obtain ⟨cb, vb, rfl⟩ := code b hb
+    obtain ⟨cc, vc, rfl⟩ := code c hc
+    have hS := codeLt_strict hP hdotS [ca, cb, cc]
+      (by intro c hc; simp at hc; rcases hc with rfl | rfl | rfl <;> assumption)
+    exact hS.trans ca (by simp) cb (by simp) cc (by simp) h1 h2
+  · intro a ha b hb hne
+    obtain ⟨ca, va, rfl⟩ := code a ha
+    obtain ⟨cb, vb, rfl⟩ := code b hb
+    have hS := codeLt_strict hP hdotS [ca, cb] (by intro c hc; simp at hc; rcases hc with rfl | rfl <;> assumption)
+    exact hS.total ca (by simp) cb (by simp) (fun e => hne (e ▸ rfl))
+  · intro p hp i j hij hj
+    have hj' : j < 2 ^ 63 := Nat.lt_of_lt_of_le hj (hlen p)
+    rw [depLess_same_port p i j (by omega) hj']
+    simpa using hij
+
+/-- the property's save → load clause for the code as it is: every graph reachable by editing, saved with
+    `dependencyNameLess` and loaded into a fresh application, comes back as itself (array order included) -/
+theorem decode_encode_natural {E : Env V J} (hE : EnvOK E) (hP : ∀ ty T, E.types ty = some T → PortsOK T)
+    (h : Hdr) (ops : List (Op J)) (hlen : ∀ n ∈ (run E (Graph.init h) ops).nodes, ∀ p, (n.arrs p).length ≤ 2 ^ 63)
+    (hf : FilePayloadLast E (run E (Graph.init h) ops)) :
+    decode E Hdr.empty (encode E depLess (run E (Graph.init h) ops)) = .ok (run E (Graph.init h) ops).norm :=
+  decode_encode hE (edit_history_wf hE h ops)
+    (fun n hn T hT => natural_order_ok hE hT (hP _ T hT) n (hlen n hn)) hf
+
+/-! ### what the pinned (pre-5b98158) order does to ten or more array entries; what jbtf does to a second payload -/
 
 /-- the lower-cased string order puts `Values.10` before `Values.2`; the numeric-aware one does not -/
 theorem lexicographic_misorders : lexLess "Values.10".toList "Values.2".toList = true ∧
     depLess "Values.10".toList "Values.2".toList = false ∧ depLess "Values.2".toList "Values.10".toList = true := by
   decide
+
+/-- witness environment: `P` a value parameter (output type 1), `S` a struct with one array input `Values` (type 1) -/
+def wEnv : Env Nat Nat :=
+  { types := fun t => if t = "P" then some { out := 1, scal := [], arrs := [], param := some .value }
+                      else if t = "S" then some { out := 1, scal := [], arrs := [("Values".toList, 1)], param := none }
+                      else none,
+    dflt := fun _ => some 0, toJ := id, fromJ := fun _ j => some j, cat := fun a b => a + b }
+
+/-- the 11-connection graph: create `S`, then eleven times create a parameter and connect it to `Values` -/
+def wGraph : Graph Nat :=
+  run wEnv (Graph.init Hdr.empty)
+    (.create "S" :: ((List.range 11).flatMap fun i =>
+      [.create "P", .connect (nodeIdOf (i + 1)) "Out" (nodeIdOf 0) "Values.0".toList]))
+
+def valuesOf (g : Graph Nat) : List (List Id) :=
+  (g.nodes.filter (fun n => n.ty = "S")).map (fun n => (n.arrs "Values".toList).map (·.node))
+
+def reloadValues (cmp : Name → Name → Bool) (g : Graph Nat) : Option (List (List Id)) :=
+  match decode wEnv Hdr.empty (encode wEnv cmp g) with
+  | .ok g' => some (valuesOf g')
+  | .error _ => none
+
+/-- with the old lower-cased string order, decode ∘ encode scrambles an array input with 11 connections
+    (the eleventh, saved as `Values.10`, comes back third); with the repaired order it does not -/
+theorem lexicographic_order_breaks :
+    reloadValues lexLess wGraph = some [["Node-1", "Node-2", "Node-11", "Node-3", "Node-4", "Node-5", "Node-6",
+      "Node-7", "Node-8", "Node-9", "Node-10"]] ∧
+    reloadValues lexLess wGraph ≠ some (valuesOf wGraph) ∧
+    reloadValues depLess wGraph = some (valuesOf wGraph) := by
+  decide
+
+/-- witness environment with one File-like parameter type whose payloads are strings -/
+def fEnv : Env (List Char) (List Char) :=
+  { types := fun t => if t = "F" then some { out := 2, scal := [], arrs := [], param := some .file } else none,
+    dflt := fun _ => none, toJ := id, fromJ := fun _ j => some j, cat := fun a b => a ++ b }
+
+def fGraph : Graph (List Char) :=
+  run fEnv (Graph.init Hdr.empty)
+    [.create "F", .create "F", .setValue "Node-0" "AAAA".toList, .setValue "Node-1" "BB".toList]
+
+def payloadsOf (g : Graph (List Char)) : List (Option String) :=
+  g.nodes.map (fun n => (n.par.bind Param.value).map String.ofList)
+
+/-- KNOWN FINDING C12-file-param-not-last, as a closed term: with two File parameters `AAAA`, `BB`
+    (so `FilePayloadLast` fails) the first one reloads as `AAAABB` -/
+theorem file_payload_concatenated :
+    ¬ FilePayloadLast fEnv fGraph ∧ payloadsOf fGraph = [some "AAAA", some "BB"] ∧
+    (match decode fEnv Hdr.empty (encode fEnv depLess fGraph) with
+     | .ok g' => some (payloadsOf g')
+     | .error _ => none) = some [some "AAAABB", some "BB"] := by
+  decide
+
+/-! ### non-vacuity of the hypotheses -/
+
+theorem wEnv_types_aux {ty : TyName} {T : NodeType} (hT : wEnv.types ty = some T) :
+    (ty = "P" ∧ T = { out := 1, scal := [], arrs := [], param := some .value }) ∨
+    (ty = "S" ∧ T = { out := 1, scal := [], arrs := [("Values".toList, 1)], param := none }) := by
+  simp only [wEnv] at hT
+  split at hT
+  · rename_i h; cases hT; exact Or.inl ⟨h, rfl⟩
+  · split at hT
+    · rename_i h; cases hT; exact Or.inr ⟨h, rfl⟩
+    · cases hT
+
+example : EnvOK wEnv := by
+  refine ⟨?_, ?_, ?_, ?_, ?_, ?_, ?_, ?_⟩
+  · intro ty T hT; rcases wEnv_types_aux hT with ⟨_, rfl⟩ | ⟨_, rfl⟩ <;> simp
+  · intro ty T hT; rcases wEnv_types_aux hT with ⟨_, rfl⟩ | ⟨_, rfl⟩ <;> simp
+  · intro ty T hT; rcases wEnv_types_aux hT with ⟨_, rfl⟩ | ⟨_, rfl⟩ <;> simp
+  · intro ty T hT; rcases wEnv_types_aux hT with ⟨_, rfl⟩ | ⟨_, rfl⟩ <;> simp <;> decide
+  · intro ty T hT; rcases wEnv_types_aux hT with ⟨_, rfl⟩ | ⟨_, rfl⟩ <;> simp
+  · intro ty j v h; simp only [wEnv, Option.some.injEq] at h; subst h; rfl
+  · intro ty v h; rfl
+  · intro ty T hT _; rfl
+
+example : PortsOK ({ out := 1, scal := [], arrs := [("Values".toList, 1)], param := none } : NodeType) := by
+  refine ⟨?_, ?_, ?_⟩ <;> simp <;> decide
+
+example : FilePayloadLast wEnv wGraph := by decide
+
+example : (wGraph.nodes.length = 12) ∧ valuesOf wGraph = [["Node-1", "Node-2", "Node-3", "Node-4", "Node-5", "Node-6",
+    "Node-7", "Node-8", "Node-9", "Node-10", "Node-11"]] := by decide
 
 end C12
 end PolyVerif
